@@ -56,6 +56,8 @@ type request struct {
 	Millis   int   `json:"millis,omitempty"`
 	Routines int   `json:"routines,omitempty"`
 	Proc     int   `json:"proc,omitempty"`
+	// Shared: the clients / goroutines use ONE *cache.Cache value instead of one each
+	Shared bool `json:"shared,omitempty"`
 }
 
 type lookupRes struct {
@@ -339,8 +341,16 @@ func doConc(req *request) (resp response) {
 	results := make([][]string, len(req.Clients))
 	var fns []func()
 	caches := make([]*cache.Cache, len(req.Clients))
+	var one *cache.Cache
+	if req.Shared {
+		one = openCache() // goroutines of one program sharing one handle
+	}
 	for i := range req.Clients {
-		caches[i] = openCache() // each client its own Cache value, as separate users of one directory
+		if req.Shared {
+			caches[i] = one
+		} else {
+			caches[i] = openCache() // each client its own Cache value, as separate users of one directory
+		}
 	}
 	ctlReset(nil) // the operations of cache.Open are not part of the schedule
 	for i, ops := range req.Clients {
@@ -403,6 +413,10 @@ func doStress(req *request) (resp response) {
 	count := func(k string) { mu.Lock(); resp.Counts[k]++; mu.Unlock() }
 	deadline := time.Now().Add(time.Duration(req.Millis) * time.Millisecond)
 	var wg sync.WaitGroup
+	var sharedHandle *cache.Cache
+	if req.Shared {
+		sharedHandle = openCache()
+	}
 	for g := 0; g < req.Routines; g++ {
 		wg.Add(1)
 		go func(g int) {
@@ -412,7 +426,10 @@ func doStress(req *request) (resp response) {
 					viol("no-panic: " + fmt.Sprint(v))
 				}
 			}()
-			c := openCache()
+			c := sharedHandle
+			if c == nil {
+				c = openCache()
+			}
 			r := rand.New(rand.NewSource(req.Seed*1000 + int64(req.Proc)*100 + int64(g)))
 			sizes := []int{0, 1, 50, 3000, 70000}
 			for time.Now().Before(deadline) {
